@@ -272,7 +272,7 @@ AddNode(C, X, j) ==
                          THEN n.p[CHOOSE x \in 1..Len(n.p) : n.p[x] \in {"htmlFormEncoded", "noFormat"}] ELSE "htmlFormEncoded"
                   ex == IF \E x \in 1..Len(n.p) : n.p[x] \notin {"htmlFormEncoded", "noFormat"}
                         THEN n.p[CHOOSE x \in 1..Len(n.p) : n.p[x] \notin {"htmlFormEncoded", "noFormat"}] ELSE ""
-              IN IF f # "" THEN CErr(C, f, j, "body")
+              IN IF f # "" THEN CErr(C, f, j, IF f = "enumnotfound" THEN "body1" ELSE "body")
                  ELSE IF ii = 0 THEN CErr(C, "resourcenotfound", j, "kw")
                  ELSE IF C.inters[ii].query # <<>> THEN CErr(C, "notunique", j, "kw")
                  ELSE [C EXCEPT !.inters[ii].query = <<[format |-> fmt, example |-> ex, schema |-> s]>>]
@@ -298,7 +298,7 @@ AddNode(C, X, j) ==
          IF n.a # "" THEN CErr(C, "annotation", j, "kw")
          ELSE IF n.b = "" THEN CErr(C, "bodyempty", j, "kw")
          ELSE LET s == BodySch(n.b)  f == SchemaFault(C, s) IN
-              IF f # "" THEN CErr(C, f, j, "body")
+              IF f # "" THEN CErr(C, f, j, IF f = "enumnotfound" THEN "body1" ELSE "body")
               ELSE IF pk = "Request" THEN
                    IF C.inters[ii].request[1].headers # <<>> THEN CErr(C, "notunique", j, "kw")
                    ELSE [C EXCEPT !.inters[ii].request[1].headers = <<[schema |-> s, node |-> j]>>]
@@ -345,7 +345,7 @@ AddNode(C, X, j) ==
          IF n.a # "" THEN CErr(C, "annotation", j, "kw")
          ELSE IF n.b = "" THEN CErr(C, "bodyempty", j, "kw")
          ELSE LET s == BodySch(n.b)  f == SchemaFault(C, s) IN
-              IF f # "" THEN CErr(C, f, j, "body")
+              IF f # "" THEN CErr(C, f, j, IF f = "enumnotfound" THEN "body1" ELSE "body")
               ELSE IF n.k = "Params" THEN
                    IF C.inters[ii].params # <<>> THEN CErr(C, "notunique", j, "kw") ELSE [C EXCEPT !.inters[ii].params = <<s>>]
               ELSE IF C.inters[ii].result # <<>> THEN CErr(C, "notunique", j, "kw") ELSE [C EXCEPT !.inters[ii].result = <<s>>]
